@@ -1,6 +1,7 @@
 """C03 — add, subtract, negate, shift, copy: exact limb-vector functions."""
 from genlib import *
 LEVEL = "proof"
+ASAN = True      # also run the op stream on an AddressSanitizer build (read/write footprint of the kernels)
 LEAN_MODULES = ["MpirProofs.Props.C03"]
 THEOREMS = ["Mpir.add_n_val", "Mpir.sub_n_val", "Mpir.add_1_val", "Mpir.sub_1_val", "Mpir.add_val", "Mpir.sub_val",
             "Mpir.neg_n_val", "Mpir.com_n_val", "Mpir.lshift_val", "Mpir.rshift_val", "Mpir.cmp_spec", "Mpir.zero_p_iff"]
@@ -79,3 +80,7 @@ LEVEL_TEXT = ("Kernel-checked Lean theorems state, for every length and limb con
               "library on every check over all sizes 1..70, carry chains stopping at every position, all shift counts and all permitted overlaps.")
 LEVEL_NOTE = ("Trusted: Lean kernel; the hand-written models are tied to the C by differential execution, not by translation; "
               "the mpz layer and overlap behaviour are covered by the correspondence only.")
+
+PINS = [("mpn/generic/add_n.c", "mpn_add_n"), ("mpn/generic/sub_n.c", "mpn_sub_n"), ("mpn/generic/lshift.c", "mpn_lshift"), ("mpn/generic/rshift.c", "mpn_rshift"),
+        ("mpn/generic/com_n.c", "mpn_com_n"), ("mpir.h", "mpn_neg_n"), ("mpir.h", "__GMPN_AORS_1"), ("mpir.h", "__GMPN_AORS"), ("mpir.h", "__GMPN_ADD"), ("mpir.h", "__GMPN_SUB"),
+        ("mpir.h", "__GMPN_CMP"), ("mpir.h", "__GMPN_ADDCB"), ("mpir.h", "__GMPN_SUBCB"), ("mpn/generic/copyi.c", None), ("mpn/generic/copyd.c", None), ("mpn/generic/zero.c", None)]
